@@ -18,6 +18,8 @@ CLAIM = (
     "enumeration generator through repr() of the value; (4) ENUM-RT: the enumeration member and the from-string map are built from the "
     "same pair (enum_literal_name(literal.name), literal.value), so to-string followed by from-string is the identity and other texts "
     "miss the map; (5) the dispatch over the kinds of constants is exhaustive (EXH1)."
+    " SKIPS: the loops of the functions in scope have no more `continue`, `break` or in-loop `return` statements than the reference "
+    "read on the unchanged tree (baselines/skips.json): a new skip means elements that were handled are no longer handled."
 )
 NOTE = (
     "Imported: C19 (python string_literal / bytes_literal denote their argument). Not decided: the run-time values of the generated "
@@ -152,3 +154,11 @@ def run(ctx) -> None:
         ctx.fail("ENUM-RT", gs, gs.node, "the from-string key is not python_common.string_literal(literal.value)", construct="from-string key literal")
     for f in p.module(f"{PKG}.{PC}").functions.values():
         exh.check_exh1(ctx, f, "EXH1")
+
+    ctx.rule("SKIPS", "the loops of the functions in scope have no more continue/break/return-in-loop statements than the reference read on the unchanged tree", floor=2)
+    from ..rules import skips as _skips
+    _base = _skips.load_baseline()
+    for _m in ctx.p.modules.values():
+        if _m.name in ("aas_core_codegen.python.lib._generate_constants", "aas_core_codegen.python.lib._generate_stringification"):
+            for _f in _m.functions.values():
+                _skips.check_skips(ctx, _f, "SKIPS", _base)
